@@ -21,7 +21,7 @@ use std::time::{Duration, Instant};
 
 const DIM: usize = 4;
 /// scheduling slack on top of the configured flush interval (wall clock on a loaded machine)
-const SLACK_MS: u64 = 600;
+const SLACK_MS: u64 = 1500;
 
 type M = BTreeMap<u64, (Vec<u32>, BTreeMap<String, String>)>;
 
@@ -142,10 +142,10 @@ fn case(seed: u64, idx: usize, bin: &str, shim: &str, rt: &std::sync::Arc<tokio:
         acks.push(Instant::now());
         states.push(m);
         // seeded pause: none / short / half an interval / idle for longer than interval + slack
-        let pause = match rng.below(8) {
-            0..=3 => 0,
-            4 => 3,
-            5 => w / 2,
+        let pause = match rng.below(12) {
+            0..=6 => 0,
+            7 => 3,
+            8..=9 => w / 2,
             _ => w + SLACK_MS + 100,
         };
         if pause > 0 {
